@@ -520,6 +520,10 @@ class HyperscanTokenizer(Tokenizer):
                 start = byte_to_str_offset[start]
                 end = byte_to_str_offset[end]
                 m = extractor.compiled_regex.match(text[start:end])
+                if m is None:
+                    # hyperscan matched on bytes what the unicode-aware Python
+                    # regex rejects (e.g. a multi-byte character class member)
+                    continue
                 yield extractor.get_token(m, offset=start)
 
     @property
